@@ -47,7 +47,8 @@ pub fn gen(out: &mut Out, ex: &mut Exec, seed: u64, thorough: bool) {
         let mut ops = vec![];
         for _ in 0..len {
             let port = |rng: &mut Rng| -> u16 { *rng.pick(&[0xFE00u16, 0xFE02, 0xFE04, 0xFE06, 0xFE10, 0xFE11, 0xFE12, 0xFFFC, 0xFFFE, 0xFFFF, 0x3000, 0xFDFF, 0xFE20]) };
-            ops.push(match rng.below(11) {
+            ops.push(match rng.below(12) {
+                11 => { let k = 1 + rng.below(3); let ps: Vec<String> = (0..k).map(|_| hex16(port(&mut rng))).collect(); format!("sim nulldev {}", ps.join(",")) }
                 0 | 1 => { let k = rng.below(4); let ps: Vec<String> = (0..k).map(|_| hex16(port(&mut rng))).collect(); format!("sim rec {} {} {} {} w{}", rng.below(2), rng.below(2), hex16(rng.u16()), if ps.is_empty() { "-".into() } else { ps.join(",") }, rng.below(3)) }
                 2 => format!("sim rmdev {}", rng.below(8)),
                 3 => (if rng.bool() { "sim kbset" } else { "sim dsset" }).to_string(),
